@@ -150,7 +150,10 @@ def goal_tail(module, beh):
         tail += [{"a": "BeginBlock", "dt": 1000}] + recs + [{"a": "EndBlock"}, {"a": "Commit"}]
         tail += [{"a": "BeginBlock", "dt": 1000}] + regs + recs + [{"a": "EndBlock"}, {"a": "Commit"}]
     else:
-        tail += EMPTY_BLOCK * 3
+        # a new order after whatever happened (its id must be the next unused one), accepted by a signer, then completed
+        txs = [{"a": "DeliverTx", "msgs": [{"t": "Raise", "pur": "A3", "amt": 4, "denom": "nund"}]}]
+        txs += [{"a": "DeliverTx", "msgs": [{"t": "Decide", "signer": "A1", "id": k, "d": "accept"}]} for k in (1, 2, 3)]
+        tail += [{"a": "BeginBlock", "dt": 1000}] + txs + [{"a": "EndBlock"}, {"a": "Commit"}] + EMPTY_BLOCK * 3
     return beh + tail
 
 
